@@ -3,6 +3,7 @@
 package dv
 
 import (
+	"reflect"
 	"sync/atomic"
 	"unsafe"
 
@@ -84,4 +85,14 @@ func (dv *Router) VerifMutexUnlock() { dv.mutex.Unlock() }
 // word (sync.Mutex{state int32; sema uint32}, waiter count in state>>3; Go 1.18..1.24).
 func (dv *Router) VerifMutexWaiters() int {
 	return int(atomic.LoadInt32((*int32)(unsafe.Pointer(&dv.mutex))) >> 3)
+}
+
+// VerifFieldSignature: see table.VerifFieldSignature.
+func VerifFieldSignature() string {
+	t := reflect.TypeOf(Router{})
+	out := "Router{"
+	for i := 0; i < t.NumField(); i++ {
+		out += t.Field(i).Name + ":" + t.Field(i).Type.String() + ";"
+	}
+	return out + "}" + table.VerifFieldSignature() + nfdc.VerifFieldSignature() + ndn_sync.VerifFieldSignature()
 }
